@@ -91,7 +91,7 @@ class P:
         self.what = what
 
 
-def family():
+def family(max_n=130):
     out = []
     # ---- (operation, token protocol X, key protocol Y)
     for x in PROTOS:
@@ -324,10 +324,135 @@ def family():
                     "let mut b = %s::<V%d, %s>::default();" % (ty, v, purpose),
                     "b.implicit_assertion = ImplicitAssertion::from(\"ctx\");", "let _ = b;"]), False,
                     "field assignment of an implicit assertion on %s<V%d, %s>" % (ty, v, purpose)))
+    out.extend(conversion_table_programs(max_n))
     seen = set()
     for p in out:
         assert p.ident not in seen, p.ident
         seen.add(p.ident)
+    return out
+
+
+# ---- the conversion table: which From / TryFrom impls exist between key material and the typed keys, decided for every
+#      row at compile time by trait probing (an inherent associated const that exists only when the bound holds shadows
+#      the trait's default `false`); every row is one `const _: () = assert!(..)`, so rustc reports each wrong row
+TABLE_MAX_N = 130
+
+PROBE_HEAD = """#![allow(unused)]
+use rusty_paseto::prelude::*;
+use core::marker::PhantomData;
+trait Absent { const HOLDS: bool = false; }
+struct ViaFrom<T, U>(PhantomData<(T, U)>);
+struct ViaTryFrom<T, U>(PhantomData<(T, U)>);
+impl<T, U> Absent for ViaFrom<T, U> {}
+impl<T, U> Absent for ViaTryFrom<T, U> {}
+impl<T: From<U>, U> ViaFrom<T, U> { const HOLDS: bool = true; }
+impl<T: TryFrom<U>, U> ViaTryFrom<T, U> { const HOLDS: bool = true; }
+"""
+
+
+def table_targets():
+    t = []
+    for v in (1, 2, 3, 4):
+        for p in ("Local", "Public"):
+            t.append(("sym", v, p, "PasetoSymmetricKey<V%d, %s>" % (v, p)))
+            t.append(("priv", v, p, "PasetoAsymmetricPrivateKey<'static, V%d, %s>" % (v, p)))
+            t.append(("pub", v, p, "PasetoAsymmetricPublicKey<'static, V%d, %s>" % (v, p)))
+            t.append(("nonce", v, p, "PasetoNonce<'static, V%d, %s>" % (v, p)))
+    return t
+
+
+def right_sizes(kind, v, purpose):
+    """fixed sizes of key material that are the right length for this target (none: nothing of fixed size is)"""
+    if kind == "sym":
+        return (32,) if purpose == "Local" else ()
+    if kind == "nonce":
+        if purpose != "Local":
+            return ()
+        return (24, 32) if v == 2 else (32,)
+    if purpose != "Public" or v == 1:
+        return ()
+    if kind == "priv":
+        return (48,) if v == 3 else (64,)
+    return (49,) if v == 3 else (32,)
+
+
+def table_expect(kind, v, purpose, trait, src):
+    """True: the conversion must exist; False: it must not; None: the property says nothing about it.
+    src = (shape, n) for fixed-size material, ('var', text) for variable-size material, ('key', text) for another typed key"""
+    shape, n = src
+    typed_ok = (kind in ("sym", "nonce") and purpose == "Local") or (kind in ("priv", "pub") and purpose == "Public")
+    if shape == "key":
+        return False  # no typed key or nonce converts into one of another type, version or purpose
+    if not typed_ok:
+        return False  # a symmetric key / nonce of purpose Public and an asymmetric key of purpose Local come from nowhere
+    if shape == "var":
+        if kind in ("priv", "pub") and v == 1 and n == "&'static [u8]":
+            return True  # v1 keys are DER documents handed over as a slice
+        return None
+    if n not in right_sizes(kind, v, purpose):
+        return False  # fixed-size key material of the wrong length
+    documented = {"sym": "owned", "nonce": "ref", "priv": "ref", "pub": "ref"}[kind]
+    if shape != documented:
+        return None  # another spelling of the right length
+    if kind == "pub" and v == 3 and trait == "From":
+        return None  # a v3 public key is a point that is checked: TryFrom is the documented form
+    return True
+
+
+def table_sources(max_n):
+    out = []
+    for n in range(1, max_n + 1):
+        out += [(("owned", n), "Key<%d>" % n), (("ref", n), "&'static Key<%d>" % n), (("mutref", n), "&'static mut Key<%d>" % n), (("array", n), "[u8; %d]" % n), (("arrayref", n), "&'static [u8; %d]" % n)]
+    for t in ("&'static [u8]", "Vec<u8>", "&'static Vec<u8>", "&'static str", "String", "&'static String", "Box<[u8]>", "&'static mut [u8]"):
+        out.append((("var", t), t))
+    for _, _, _, ty in table_targets():
+        out.append((("key", ty), ty))
+        out.append((("key", "&" + ty), "&'static " + ty))
+    return out
+
+
+def table_row(ty, trait, text, expect):
+    w = "ViaFrom" if trait == "From" else "ViaTryFrom"
+    if expect:
+        return 'const _: () = assert!(<%s<%s, %s>>::HOLDS, "ROW|%s|%s|%s|is missing");\n' % (w, ty, text, ty, trait, text)
+    return 'const _: () = assert!(!<%s<%s, %s>>::HOLDS, "ROW|%s|%s|%s|exists");\n' % (w, ty, text, ty, trait, text)
+
+
+def conversion_table_programs(max_n):
+    out = []
+    srcs = table_sources(max_n)
+    for kind, v, purpose, ty in table_targets():
+        rows, n_true, n_false = [], 0, 0
+        for src, text in srcs:
+            if text == ty:
+                continue  # T: From<T> always holds and constructs nothing
+            for trait in ("From", "TryFrom"):
+                e = table_expect(kind, v, purpose, trait, src)
+                if e is None:
+                    continue
+                rows.append(table_row(ty, trait, text, e))
+                n_true += 1 if e else 0
+                n_false += 0 if e else 1
+        p = P("table_%s_v%d_%s" % (kind, v, purpose.lower()), "conversion-table", PROBE_HEAD + "".join(rows) + "fn main() {}\n", True,
+              "conversion table of %s: %d rows that must not exist, %d that must (From / TryFrom from Key<N>, &Key<N>, &mut Key<N>, [u8; N], &[u8; N] for N = 1..%d, slices, vectors, text, every other typed key)" % (ty, n_false, n_true, max_n))
+        p.rows = (n_true, n_false)
+        out.append(p)
+    return out
+
+
+def table_violations(p, errs):
+    """one minimal program per wrong row of a conversion-table program"""
+    out = []
+    for _, m in errs:
+        if "ROW|" not in m:
+            continue
+        ty, trait, text, how = m.split("ROW|", 1)[1].split("|")[:4]
+        how = how.strip().split("\n")[0]
+        exists = how.startswith("exists")
+        ident = "row_" + hashlib.sha256(("%s|%s|%s" % (ty, trait, text)).encode()).hexdigest()[:10]
+        q = P(ident, "conversion-table", PROBE_HEAD + table_row(ty, trait, text, not exists) + "fn main() {}\n", True, "%s: %s<%s> %s" % (ty, trait, text, "exists but must not" if exists else "is missing"))
+        q.sig = "%s:conversion-%s:%s:%s<%s>" % (PID, "exists" if exists else "missing", ty.replace("'static, ", "").replace(" ", ""), trait, text.replace("'static ", "").replace(" ", ""))
+        out.append((q, "%s: %s<%s> %s" % (ty, trait, text, "compiles: a construction path the property rules out" if exists else "no longer exists: the program with matching types is rejected")))
     return out
 
 
@@ -456,6 +581,8 @@ def main():
     if tier not in ("quick", "thorough"):
         print("usage: c19.py quick|thorough | --replay <file>")
         return 2
+    if tier == "thorough":
+        fam = family(520)
     prepare(pkg, fam)
     compiled, errors, lib_ok, stderr = run_cargo(pkg, target)
     if "rusty_paseto" in errors or (not compiled and not lib_ok):
@@ -475,14 +602,19 @@ def main():
                     if r[0] is p and r[1] == "ok" and st2 != "ok":
                         results[j] = (p, st2, "isolated re-check: " + d2)
     gen_errors = [(p, d) for p, st, d in results if st == "generator-error"]
-    violations = [(p, d) for p, st, d in results if st == "violation"]
+    violations = []
+    for p, st, d in results:
+        if st != "violation":
+            continue
+        rows = table_violations(p, errors.get(p.ident, [])) if p.group == "conversion-table" else []
+        violations.extend(rows[:6] if rows else [(p, d)])
     # sanity of the family itself: every positive template must compile, otherwise negatives mean nothing
     known = load_known()
     exit_code = 0
     nviol = 0
     os.makedirs(os.path.join(VERIF, "replays"), exist_ok=True)
     for p, d in violations:
-        sig = "%s:%s:%s" % (PID, "compiles" if not p.must_compile else "rejected", p.ident)
+        sig = getattr(p, "sig", None) or "%s:%s:%s" % (PID, "compiles" if not p.must_compile else "rejected", p.ident)
         if sig in known:
             print("KNOWN-FINDING: property=%s %s (%s)" % (PID, sig, known[sig].get("what", "")))
             continue
@@ -504,12 +636,19 @@ def main():
                 codes[c] = codes.get(c, 0) + 1
     negatives = [p for p in fam if not p.must_compile]
     samples = [{"program": p.ident, "what": p.what, "must_compile": p.must_compile, "observed": st + (" " + d if d else ""), "source": p.source} for p, st, d in (results[:2] + results[len(results) // 2:len(results) // 2 + 2] + results[-2:])]
+    table_true = sum(getattr(p, "rows", (0, 0))[0] for p in fam)
+    table_false = sum(getattr(p, "rows", (0, 0))[1] for p in fam)
+    by_group["conversion-table/rows-that-must-exist"] = table_true
+    by_group["conversion-table/rows-that-must-not-exist"] = table_false
     cov = {
-        "evaluations": len(results),
-        "distinct_nontrivial": len(set(hashlib.sha256(p.source.encode()).hexdigest() for p in negatives)),
+        "evaluations": len(results) + table_true + table_false,
+        "distinct_nontrivial": len(set(hashlib.sha256(p.source.encode()).hexdigest() for p in negatives)) + table_false,
         "rule": "programs = known-good program for protocol X with only the type parameters of the key / nonce / receiver replaced: (operation in {core encrypt, decrypt, sign, verify, generic build, parse, batteries-included build, parse} x X x Y over all 8x8 protocol pairs, nonce of another version), "
                 "methods of the other purpose, set_implicit_assertion on the five builder/parser types and the assertion argument of decrypt/verify for all 8 protocols, key constructions (symmetric key with Public purpose or from Key<24|48|64>, asymmetric keys from Key<32|48|49|64> per version and with Local purpose, nonce with Public purpose). "
-                "Oracle: compiles iff X == Y and the operation belongs to X's purpose (assertions iff V in {3,4}; key constructors iff the documented size). Non-trivial = programs that must be rejected; distinct by source text.",
+                "Oracle: compiles iff X == Y and the operation belongs to X's purpose (assertions iff V in {3,4}; key constructors iff the documented size). "
+                "Conversion table: for each of the 32 typed key / nonce types (4 kinds x 4 versions x 2 purposes), whether From<S> / TryFrom<S> exists for S in {Key<N>, &Key<N>, &mut Key<N>, [u8; N], &[u8; N] : N = 1..130 (thorough 520)}, byte slices, vectors, text, and every other typed key by value and by reference - each row decided by rustc through trait probing inside a const assertion; "
+                "rows that must not exist: every source for a symmetric key or nonce of purpose Public and an asymmetric key of purpose Local, fixed-size material of a wrong length, any typed key into another; rows that must exist: the documented form of the right length; other spellings of the right length and variable-size material are not judged. "
+                "Non-trivial = programs / rows that must be rejected; distinct by source text.",
         "samples": samples,
         "exhaustive": True,
         "classes": {"by_group": by_group, "rejection_error_codes": codes},
